@@ -137,10 +137,10 @@ Example insert_examples :
   map fst (insert_record erec snd e_order e1 (9%positive, T "THETA") None 0) = [1; 2; 3; 4; 5; 9; 6]%positive /\
   (* by the default order when the kind is absent: SIGMA goes after the last THETA/OMEGA/... *)
   map fst (insert_record erec snd e_order e1 (9%positive, T "SIGMA") None 0) = [1; 2; 3; 4; 5; 9; 6]%positive /\
-  (* at_index = 0 is falsy in Python: not inserted at the front *)
-  map fst (insert_record erec snd e_order e1 (9%positive, T "TABLE") (Some 0) 0) = [1; 2; 3; 4; 5; 6; 9]%positive /\
+  (* at_index = 0 inserts at the front (`is not None` since a3ce367) *)
+  map fst (insert_record erec snd e_order e1 (9%positive, T "TABLE") (Some 0) 0) = [9; 1; 2; 3; 4; 5; 6]%positive /\
   map fst (insert_record erec snd e_order e1 (9%positive, T "TABLE") (Some 2) 0) = [1; 2; 9; 3; 4; 5; 6]%positive /\
-  (* nothing of the default order precedes SIZES: appended at the end (real code: $SIZES lands after $PROBLEM) *)
+  (* nothing of the default order precedes SIZES: insert_record alone would append it; update_sizes passes at_index *)
   map fst (insert_record erec snd e_order e1 (9%positive, T "SIZES") None 0) = [1; 2; 3; 4; 5; 6; 9]%positive.
 Proof. repeat split; vm_compute; reflexivity. Qed.
 
@@ -148,11 +148,13 @@ Example replace_all_examples :
   option_map (map fst) (replace_all erec snd e_order e1 (T "THETA") [(8%positive, T "THETA")]) = Some [1; 2; 8; 4; 6]%positive /\
   option_map (map fst) (replace_all erec snd e_order e1 (T "SIGMA") [(8%positive, T "SIGMA")]) = Some [1; 2; 3; 4; 5; 8; 6]%positive /\
   (* a kind that is neither present nor in default_record_order: ValueError *)
-  replace_all erec snd e_order e1 (T "SIMULATION") [] = None /\
-  (* guard of replace_all_self *)
-  contiguous erec snd (T "OMEGA") e1 = true /\ contiguous erec snd (T "THETA") e1 = false /\
-  index_of (T "OMEGA") e_order <> None.
-Proof. repeat split; vm_compute; try reflexivity. discriminate. Qed.
+  replace_all erec snd e_order e1 (T "SIMULATION") [(8%positive, T "SIMULATION")] = None /\
+  replace_all erec snd e_order e1 (T "SIMULATION") [] = Some e1 /\
+  (* same number of records: in place, although the THETA records are not contiguous *)
+  contiguous erec snd (T "THETA") e1 = false /\
+  option_map (map fst) (replace_all erec snd e_order e1 (T "THETA") [(8%positive, T "THETA"); (7%positive, T "THETA")])
+  = Some [1; 2; 8; 4; 7; 6]%positive.
+Proof. repeat split; vm_compute; reflexivity. Qed.
 
 Example replace_remove_examples :
   map fst (replace_records erec fst e1 [(3%positive, T "THETA"); (5%positive, T "THETA")] [(8%positive, T "THETA")]) = [1; 2; 8; 4; 6]%positive /\
@@ -166,7 +168,6 @@ Example update_abbr_identity_example :
 "); (2%positive, T "ABBREVIATED", T "$ABBR COMRES=2
 "); (3%positive, T "PK", T "$PK
 ")] in
-  contiguous xrec xname s_ABBR l = true /\
   filter (fun _ => true) (get_records xrec xname l s_ABBR 0) = filter (name_is xrec xname s_ABBR) l /\
   update_abbr xrec xname xorder s_ABBR l (fun _ => true) [] = Some l.
 Proof. repeat split; vm_compute; reflexivity. Qed.
